@@ -48,21 +48,21 @@ fn main() {
         (
             Spec { cap: 2, keyseed: 21, warm: 1, wprog: vec![WOp::Add { dir: 1, par: 0 }, WOp::Add { dir: 2, par: 1 }, WOp::Rm(1)],
                    rprogs: vec![vec![ROp::Setup { seal: true, x: 0 }, seal(0), seal(2), seal(0), seal(1), seal(0)]] },
-            d(9, 11),
+            d(9, 13),
         ),
         (
             Spec { cap: 3, keyseed: 22, warm: 2, wprog: vec![WOp::Add { dir: 1, par: 2 }, WOp::Add { dir: 1, par: 0 }, WOp::RmIf(Pred::IdGe(1)), WOp::Add { dir: 2, par: 0 }],
                    rprogs: vec![vec![ROp::Setup { seal: true, x: 0 }, seal(2), seal(0), seal(0), seal(2), seal(0)]] },
-            d(8, 10),
+            d(8, 12),
         ),
         // two contexts for two channels on two readers
         (
             Spec { cap: 3, keyseed: 23, warm: 2, wprog: vec![WOp::Add { dir: 1, par: 0 }, WOp::Add { dir: 1, par: 1 }, WOp::RmIf(Pred::None), WOp::Add { dir: 1, par: 2 }],
                    rprogs: vec![vec![ROp::Setup { seal: true, x: 0 }, seal(0), seal(1), seal(0)], vec![ROp::Setup { seal: true, x: 1 }, seal(0), seal(0)]] },
-            d(6, 7),
+            d(6, 8),
         ),
     ];
-    sw::drive(&mut rec, PROP, 2, &fixed, args.seed, args.budget(250, 2500), 10);
-    sw::drive_mem(&mut rec, PROP, args.seed, args.budget(300, 3000));
+    sw::drive(&mut rec, PROP, 2, &fixed, args.seed, args.budget(250, 8000), 10);
+    sw::drive_mem(&mut rec, PROP, args.seed, args.budget(300, 8000));
     rec.finish(args.seed, &args.tier);
 }
